@@ -11,7 +11,8 @@ import MM.Model.C09
     drm <pattern> <origin>      dlook <name>
     fadd <key> <target> <nh> <origin> <metric> <seq> <path>     frm <key> <origin>     flook <key>
     aadd <agent> <nh> <origin> <metric> <seq> <path>            arm <agent> <origin>   alook <agent>
-    Xdisc <peer>   Xage <n>   Xclean <maxAge>          (X = d | f | a)
+    Xdisc <peer>   Xage <n>   Xclean <maxAge>   Xsize   Xclear       (X = d | f | a)
+    dhas <pattern> <origin>     fhas <key> <origin>     aroutes <agent>  (AgentTable.GetRoutesForAgent)
 
   Mutators answer `result ; dump`, lookups `none | route <entry>`; names are hex byte strings.
 -/
@@ -26,10 +27,6 @@ def showE {P : Type} (showP : P → String) (now : Nat) (e : Entry P) : String :
   s!"E{showP e.pay},{e.nextHop},{e.origin},{e.metric},{e.seq},{showPath e.path},{now - e.born}"
 
 def showDKey (k : DKey) : String := (if k.1 then "w:" else "x:") ++ hexTok k.2
-
-/-- one table + its clock + how to print it -/
-structure Tab (K P : Type) where
-  s : State K P := ⟨0, []⟩
 
 structure St where
   self : Nat := 0
@@ -126,6 +123,22 @@ def step (st : St) (line : String) : St × String :=
     let s' : State Nat Nat := ⟨st.a.now, t'⟩
     ({ st with a := s' }, s!"{ok} ; {adump s'}")
   | ["alook", ag] => (st, showOptE toString st.a.now (agLookup st.a.tab (natTok ag)))
+  | ["aroutes", ag] =>
+    (st, " ".intercalate ("routes" :: (get st.a.tab (natTok ag)).map (showE toString st.a.now)))
+  | ["dhas", pat, orig] =>
+    match bytesOfHex pat with
+    | some p => (st, toString (!p.isEmpty && hasRoute st.d.tab (domRemoveKey p) (natTok orig)))
+    | none => (st, "bad-op")
+  | ["fhas", key, orig] =>
+    match bytesOfHex key with
+    | some k => (st, toString (!k.isEmpty && hasRoute st.f.tab k (natTok orig)))
+    | none => (st, "bad-op")
+  | ["dsize"] => (st, s!"size {size st.d.tab} {totalRoutes st.d.tab}")
+  | ["fsize"] => (st, s!"size {size st.f.tab} {totalRoutes st.f.tab}")
+  | ["asize"] => (st, s!"size {size st.a.tab} {totalRoutes st.a.tab}")
+  | ["dclear"] => ({ st with d := ⟨st.d.now, []⟩ }, "ok ; empty")
+  | ["fclear"] => ({ st with f := ⟨st.f.now, []⟩ }, "ok ; empty")
+  | ["aclear"] => ({ st with a := ⟨st.a.now, []⟩ }, "ok ; empty")
   | [op, arg] =>
     let tbl := (op.take 1).toString
     let o := (op.drop 1).toString
@@ -230,6 +243,12 @@ def specStep (st : SpecSt) (l : String) : SpecSt × String :=
         | some k => (st, specKey parseFwdPay (·.key) st.f k (tokens out))
         | none => (st, "bad-op")
       | ["alook", ag] => (st, specKey parseAgPay id st.a (natTok ag) (tokens out))
+      | ["aroutes", _] => (st, "ok")
+      | ["dhas", _, _] => (st, "ok")
+      | ["fhas", _, _] => (st, "ok")
+      | ["dsize"] => (st, "ok")
+      | ["fsize"] => (st, "ok")
+      | ["asize"] => (st, "ok")
       | opn :: _ =>
         let tbl := (opn.take 1).toString
         if tbl = "d" then
